@@ -52,6 +52,29 @@ CLAIMS.update({
             'path-sensitive slot/def-use tracking over MIR + finite predicate domains + delegation rules', '§4 C05'),
 })
 
+CLAIMS.update({
+    'C01': ('other',
+            'Decides structural necessary conditions of the round trip: layout agreement as two one-sided checks against the declarative format table (every section the three node encoders emit - order, direction, width argument, presence guard, max-width computation, index table - and every byte offset, width and guard of the reader accessors, Node::new wiring and Node::transition), integer packing thresholds and endianness, delta addressing, key-count accounting, tiling of node addresses, the single emission funnel, and each local step of the builder\'s output-prefix algebra.',
+            'Does not decide the global invariant that the streamed (key, value) list equals the inserted one for all inputs (an inductive argument over the builder\'s stack and the reader\'s accumulation); the DFS/stream side is decided under C03. Trusts the transcription of the format table.',
+            'emission-language reconstruction from MIR (dominance/control dependence), linear-form comparison of reader offsets with a declarative layout table, path-sensitive dataflow', '§4 C01'),
+    'C02': ('other',
+            'Decides the structural clauses of point lookup: both walkers miss at the first absent transition, follow the transition found for the probe byte, and hit only on a final node (get adds its final output); reader scan/index paths agree with how the writer stores inputs (reversed) and fills the 256-entry index (default 255, forward positions); common-input tables are mutually inverse permutations used as COMMON[b]+1 / INV[idx-1]; wrappers delegate; all reader offsets equal the format table.',
+            'Does not decide "for every probe" as a value statement over all built FSTs; assumes the FST came from this crate\'s builder (C01/C09).',
+            'path-sensitive MIR reconstruction of the walkers + linear-form comparison of reader offsets + constant tables read back from the compiled crate', '§4 C02'),
+    'C08': ('other',
+            'Decides: the 17x256 CRC tables compiled into the crate equal independently generated CRC-32C tables; masking is rotr15 + 0xA282EAD8 (bit provenance); slice-by-16 lane pairing, advance, guard, tail step and inversions; the checksum is read after both footer words and is the trailing word; verify() hashes exactly [0,len-4) from the empty state and requires equality with the stored word; the rolling checksum covers exactly the accepted bytes.',
+            '"A single altered byte is never certified" additionally uses the burst-error theorem for a degree-32 CRC and the bijectivity of the mask (cited, not re-derived); a rewrite of the CRC loop outside the table-driven family is reported as undecided.',
+            'compile-time constant comparison against an independent generator + bit-provenance domain + path-sensitive MIR reconstruction + must-precede rules', '§4 C08'),
+    'C09': ('other',
+            'Decides the writer half of the format against the declarative table: constants and common-input tables, state-byte tags/fields and sizes-byte nibbles (bit provenance), integer packing (thresholds, endianness), the emission language of every node encoder (order, direction, width, guard, max widths, index table, count byte for 256), form selection over all 48 consistent cases, delta addressing, header/footer words and order, and the checksum clause (tables, mask, coverage).',
+            '"Decoding by the spec yields exactly the inserted map" inherits the undecided value-level part of C01; the format table itself is a transcription of the format comments at the pinned revision.',
+            'emission-language reconstruction from MIR + finite-domain enumeration + bit-provenance + constant comparison', '§4 C09'),
+    'C15': ('proof',
+            'Each premise is discharged on every run: every construction entry point reaches emission only through the gates new/add/insert/finish, add and insert share one inserting routine, builders are created by a single constructor with literal cache geometry and type word; no nondeterministic std effect (keyed hashing, hash-container iteration, time, env, thread/process identity, atomics, pointer-to-integer casts) is reachable from any entry point and the library has no mutable/thread-local static; the cache bucket function is closed arithmetic over node fields and the cache holds no hasher state. The emitted bytes are therefore a function of the sequence of gate calls.',
+            'Trusts the deny-list of nondeterministic std APIs; calls into user code are outside the property. That add(k) and insert(k, 0) emit the same bytes is argued in DESIGN.md (the output-pushing branch is the identity for zero outputs), not decided.',
+            'call-graph reachability with gates + effect classification of resolved callees + constructor/argument provenance', '§4 C15'),
+})
+
 NOT_APPLICABLE = {
     'C17': 'Acceptance is a property of a DFA constructed at run time from the query; no clause has a structural counterpart that a sound static rule within reach could decide (DESIGN.md §6).',
 }
